@@ -145,6 +145,22 @@ def _universe(M, H=None, extra=()):
     return sorted(nodes, key=repr)
 
 
+def own_index_problem(H):
+    """the snapshot index of a graph that was read back / rebuilt must describe that graph's OWN timelines (ids = inhabited instants,
+    count = number of interactions present); None when it does, else a description"""
+    directed = H.is_directed()
+    ids2 = list(H.temporal_snapshots_ids())
+    cnt2 = dict(H.interactions_per_snapshots())
+    own = {}
+    for it in (H.out_interactions() if directed else H.interactions()):
+        for (s0, e0) in it[2]['t']:
+            for q in range(s0, e0 + 1):
+                own[q] = own.get(q, 0) + 1
+    if ids2 != sorted(own) or any(cnt2.get(q) != n_ for q, n_ in own.items()):
+        return 'snapshot ids %r / counts %r, its own timelines give %r' % (ids2, cnt2, sorted(own.items()))
+    return None
+
+
 def presence_diff(H, M, nodes, qs, limit=4):
     """[(u, v, q, got, expected)] where has_interaction disagrees with the model (both endpoint orders are queried)"""
     out = []
@@ -342,6 +358,10 @@ def _c09_case(col, cls, history, nodetype, target, delim, enc):
                         col.violation('C09.roundtrip', cls, True, history,
                                       'after write_snapshots/read_snapshots has_interaction%r is %r, in the written graph it is %r (%d+ differences: %r)'
                                       % (d[0][:3], d[0][3], d[0][4], len(d), d), kind='presence', file_text=raw.decode(enc), **ex)
+                    else:
+                        pb = own_index_problem(H)
+                        if pb:
+                            col.violation('C09.roundtrip', cls, True, history, 'the graph read back has ' + pb, kind='snapshot_index_of_the_copy', file_text=raw.decode(enc), **ex)
     finally:
         cleanup()
 
@@ -555,6 +575,23 @@ def _c10_case(col, cls, history, nodetype, target, delim, enc):
         ts2 = [e[3] for e in st2]
         if ts2 != sorted(ts2):
             col.violation('C10.roundtrip', cls, True, history, 'stream of the graph read back is not chronological: %r' % (st2,), kind='stream_order', d06=False, **ex)
+        # the graph read back is a graph like any other: its snapshot index must describe ITS OWN presence relation (same presence +
+        # same stream as the written graph then give the same ids and counts; checked on the read graph itself so that finding D06,
+        # which changes the presence of the copy, does not interfere)
+        if not d:
+            try:
+                ids2 = list(H.temporal_snapshots_ids())
+                cnt2 = dict(H.interactions_per_snapshots())
+                own = {}
+                for it in (H.out_interactions() if directed else H.interactions()):
+                    for (s0, e0) in it[2]['t']:
+                        for q in range(s0, e0 + 1):
+                            own[q] = own.get(q, 0) + 1
+                if ids2 != sorted(own) or any(cnt2.get(q) != n_ for q, n_ in own.items()):
+                    col.violation('C10.roundtrip', cls, True, history, 'file %r: the graph read back has snapshot ids %r / counts %r, its own timelines give %r'
+                                  % (text, ids2, cnt2, sorted(own.items())), kind='snapshot_index_of_the_copy', d06=False, file_text=text, **ex)
+            except Exception as e:
+                col.violation('C10.roundtrip', cls, True, history, 'snapshot queries on the graph read back raised %r' % (e,), kind='exception:' + e.__class__.__name__, d06=False, **ex)
     finally:
         cleanup()
     return G, M
@@ -743,6 +780,10 @@ def _check_rebuilt(col, check, cls, history, H, M, exp_nodes, gattr, ex):
     d = presence_diff(H, M, _universe(M, H, list(exp_nodes)), _window(M))
     if d:
         col.violation(check, cls, True, history, 'rebuilt graph: has_interaction%r = %r, original %r (differences %r)' % (d[0][:3], d[0][3], d[0][4], d), kind='presence', **ex)
+    else:
+        pb = own_index_problem(H)
+        if pb:
+            col.violation(check, cls, True, history, 'the rebuilt graph has ' + pb, kind='snapshot_index_of_the_copy', **ex)
 
 
 def _c11_case(col, cls, history, nodetype, decor, id_attr):
